@@ -319,6 +319,23 @@ func (c *Ctx) bin(op Op, a, b *Term) *Term {
 	if op == OBOr && a == b {
 		return a
 	}
+	// (x + c1) + c2 -> x + (c1+c2); (x + c1) - c2 likewise
+	if (op == OAdd || op == OSub) && b.IsConst() && a.Op == OAdd {
+		for k := 0; k < 2; k++ {
+			if a.Args[k].IsConst() {
+				var cc *Term
+				if op == OAdd {
+					cc = c.bin(OAdd, a.Args[k], b)
+				} else {
+					cc = c.bin(OSub, a.Args[k], b)
+				}
+				return c.bin(OAdd, a.Args[1-k], cc)
+			}
+		}
+	}
+	if op == OAdd && a.IsConst() && b.Op == OAdd {
+		return c.bin(OAdd, b, a)
+	}
 	if (op == OBXor || op == OSub) && a == b {
 		return c.BV(0, w)
 	}
